@@ -124,6 +124,7 @@ fn main() {
                 let nkeys = rng.range(1, 5);
                 let writes = [25u64, 45, 65][rng.below(3) as usize];
                 let mut v = 0;
+                let mut syncing: Vec<u64> = vec![];
                 for _ in 0..len {
                     let r = rng.below(100);
                     if r < writes {
@@ -138,7 +139,9 @@ fn main() {
                         } else if x < 75 {
                             ops.push("clr".into());
                         } else if x < 90 {
-                            ops.push(format!("sync {}", rng.range(1, 3)));
+                            // every sync request comes from a remote that has none outstanding (fresh id)
+                            syncing.push(syncing.len() as u64 + 1);
+                            ops.push(format!("sync {}", syncing.len()));
                         } else if x < 95 {
                             ops.push(format!("drop {}", rng.below(3)));
                         } else {
